@@ -108,7 +108,7 @@ def tr_value_tokens(spec):
         entries.append(T(num(v)) if given else None)
     while entries and entries[-1] is None:
         entries.pop()
-    # collapse runs of placeholders into nJ
+    # collapse runs of placeholders into nJ (or spell them out one by one)
     out = []
     run = 0
     for e in entries:
@@ -116,7 +116,10 @@ def tr_value_tokens(spec):
             run += 1
             continue
         if run:
-            out.append(T(raw('%dj' % run if run > 1 else 'j')))
+            if spec.get('j_expanded'):
+                out.extend(T(raw('j')) for _ in range(run))
+            else:
+                out.append(T(raw('%dj' % run if run > 1 else 'j')))
             run = 0
         out.append(e)
     toks += out
